@@ -7,6 +7,7 @@
 //! (libvsched.so via LD_PRELOAD, found by the hook with dlsym), and child
 //! processes (childstub, a scripted preprocessor / decompressor).
 
+mod c03;
 mod c08;
 mod c14;
 mod c15;
@@ -114,6 +115,7 @@ fn main() {
             "c14" => c14::replay(&v),
             "c17" => c17::replay(&v),
             "c16" => c16::replay(&v),
+            "c03" => c03::replay(&prop, &v),
             k => harness_error(&format!("unknown replay kind {k}")),
         };
         match vs.first() {
@@ -163,6 +165,19 @@ fn main() {
             ],
             |sub, acc, ctx, thorough| c15::run_workload(sub, None, acc, ctx, thorough),
         ),
+        "C02" | "C03" => {
+            let prop = opts.property.clone();
+            drive(
+                &opts,
+                "exploration",
+                "c02c03cli",
+                opts.cases(700, 10000),
+                jobs,
+                "CLI leg: per workload one generated file (0-45 lines, LF or mixed CRLF, with/without final newline) and one seeded flag combination (-A/-B/-C in three spellings, --passthru, -v, -n/-N, --stop-on-nonmatch, --crlf), searched by the real rg via memory map, via read(), via standard input, and via read() under syscall-level fragmentation with EINTR. C02: all routes print identical bytes and exit alike. C03: the bytes equal the rendering of the grep model (line numbers, ':' / '-' markers, '--' separators) and the exit status follows.",
+                vec!["literal pattern foo; the CLI leg checks the wiring of command-line flags to the searcher and printer in addition to the library leg".into()],
+                move |sub, acc, ctx, thorough| c03::run_workload(&prop, sub, acc, ctx, thorough),
+            )
+        }
         "C08" => drive(
             &opts,
             "exploration",
